@@ -67,14 +67,34 @@ func goEnv() []string {
 	return env
 }
 
-func build(race bool) (string, error) {
-	out := filepath.Join(verifDir, "bin", "worker")
-	args := []string{"build", "-tags", "verif", "-o", out}
+// build compiles the worker of one property against the lattigo tree (default /repo; VERIF_REPO
+// points it at a scratch copy for mutation checks, through a generated -modfile).
+func build(prop string, race bool) (string, error) {
+	suffix := ""
+	if r := os.Getenv("VERIF_REPO"); r != "" && r != "/repo" {
+		h := sha256.Sum256([]byte(r))
+		suffix = "-alt" + hex.EncodeToString(h[:3])
+	}
+	out := filepath.Join(verifDir, "bin", "worker-"+prop+suffix)
+	args := []string{"build", "-tags", "verif"}
 	if race {
 		out += "-race"
-		args = []string{"build", "-race", "-tags", "verif", "-o", out}
+		args = append(args, "-race")
 	}
-	args = append(args, "./cmd/worker")
+	if r := os.Getenv("VERIF_REPO"); r != "" && r != "/repo" {
+		mf := filepath.Join(verifDir, "work", "modfile"+suffix)
+		os.MkdirAll(mf, 0o755)
+		gm, err := os.ReadFile(filepath.Join(verifDir, "harness", "go.mod"))
+		if err != nil {
+			return "", err
+		}
+		gm = bytes.ReplaceAll(gm, []byte("=> /repo"), []byte("=> "+r))
+		os.WriteFile(filepath.Join(mf, "go.mod"), gm, 0o644)
+		gs, _ := os.ReadFile(filepath.Join(verifDir, "harness", "go.sum"))
+		os.WriteFile(filepath.Join(mf, "go.sum"), gs, 0o644)
+		args = append(args, "-modfile="+filepath.Join(mf, "go.mod"))
+	}
+	args = append(args, "-o", out, "./cmd/w/"+strings.ToLower(prop))
 	cmd := exec.Command("go", args...)
 	cmd.Dir = filepath.Join(verifDir, "harness")
 	cmd.Env = goEnv()
@@ -303,15 +323,23 @@ func loadFindings() []finding {
 	var f struct {
 		Findings []finding `json:"findings"`
 	}
-	b, err := os.ReadFile(filepath.Join(verifDir, "known_findings.json"))
-	if err != nil {
-		return nil
+	paths := []string{filepath.Join(verifDir, "known_findings.json")}
+	more, _ := filepath.Glob(filepath.Join(verifDir, "known_findings.d", "*.json"))
+	paths = append(paths, more...)
+	var all []finding
+	for _, p := range paths {
+		b, err := os.ReadFile(p)
+		if err != nil {
+			continue
+		}
+		f.Findings = nil
+		if err := json.Unmarshal(b, &f); err != nil {
+			fmt.Fprintln(os.Stderr, p+":", err)
+			os.Exit(2)
+		}
+		all = append(all, f.Findings...)
 	}
-	if err := json.Unmarshal(b, &f); err != nil {
-		fmt.Fprintln(os.Stderr, "known_findings.json:", err)
-		os.Exit(2)
-	}
-	return f.Findings
+	return all
 }
 
 func main() {
@@ -350,7 +378,7 @@ func main() {
 	}
 	start := time.Now()
 
-	bin, err := build(false)
+	bin, err := build(prop, false)
 	if err != nil {
 		fmt.Fprintln(os.Stderr, "BUILD FAILED (worker does not compile against /repo's tree):\n", err)
 		os.Exit(2)
@@ -372,14 +400,14 @@ func main() {
 	}
 	var rbin string
 	if inf.NRace > 0 {
-		rbin, err = build(true)
+		rbin, err = build(prop, true)
 		if err != nil {
 			fmt.Fprintln(os.Stderr, "BUILD FAILED (race worker):\n", err)
 			os.Exit(2)
 		}
 	}
 
-	work := filepath.Join(verifDir, "work", prop+"-"+tier)
+	work := filepath.Join(verifDir, "work", prop+"-"+tier+os.Getenv("VERIF_WORK_SUFFIX"))
 	os.RemoveAll(work)
 	os.MkdirAll(work, 0o755)
 
@@ -560,6 +588,10 @@ func main() {
 	}
 	evb, _ := json.MarshalIndent(ev, "", " ")
 	evPath := filepath.Join(verifDir, "evidence", prop+".json")
+	if r := os.Getenv("VERIF_REPO"); r != "" && r != "/repo" {
+		// mutation check against a scratch copy: never touch the committed evidence
+		evPath = filepath.Join(work, "evidence-"+prop+".json")
+	}
 	os.MkdirAll(filepath.Dir(evPath), 0o755)
 	bad := ""
 	if total.Evaluations < 1 {
